@@ -38,7 +38,6 @@ func showTag(t httpflv.Tag) string {
 }
 
 func init() {
-	httpflv.SubSessionWriteChanSize = 0
 
 	register("c11.pack", func(a []string) string {
 		return tokBytes(httpflv.PackHttpflvTag(uint8(numTok(a[0])), uint32(numTok(a[1])), bytesTok(a[2])))
@@ -51,6 +50,16 @@ func init() {
 		}
 		rest, _ := ioutil.ReadAll(rd)
 		return fmt.Sprintf("ok %s %s %s", showTag(tag), tokBytes(tag.Payload()), tokBytes(rest))
+	})
+	register("c11.modts", func(a []string) string {
+		t, ts, p := uint8(numTok(a[0])), uint32(numTok(a[1])), bytesTok(a[2])
+		tag := httpflv.Tag{Header: httpflv.TagHeader{Type: t, DataSize: uint32(len(p)), Timestamp: ts}, Raw: httpflv.PackHttpflvTag(t, ts, p)}
+		out := []string{showTag(tag)}
+		for _, x := range strings.Split(a[3], ",") {
+			tag.ModTagTimestamp(uint32(numTok(x)))
+			out = append(out, showTag(tag))
+		}
+		return strings.Join(out, ",")
 	})
 	register("c11.file", func(a []string) string {
 		tags := parseTags(a[0])
@@ -102,7 +111,10 @@ func init() {
 		ws := boolTok(a[0])
 		tags := parseTags(a[1])
 		conn := newFakeConn(nil)
+		old := httpflv.SubSessionWriteChanSize
+		httpflv.SubSessionWriteChanSize = 0 // synchronous writes for this session only
 		s := httpflv.NewSubSession(conn, base.UrlContext{}, ws, "key")
+		httpflv.SubSessionWriteChanSize = old
 		s.WriteFlvHeader()
 		for _, t := range tags {
 			raw := httpflv.PackHttpflvTag(t.t, t.ts, t.payload)
